@@ -297,7 +297,20 @@ func runC15(c *eng.Ctx) {
 	c.Rule("GUARD", "kv/version.version.FindFiles{inclusive}", func() {
 		f := c.Fn("kv/version.version.FindFiles")
 		facts := p.MustFacts(f)
-		for i, s := range c.Some(f, eng.CallTo("builtin:append"), "append(files, file)") {
+		var selects []eng.Site
+		for _, s := range c.Some(f, eng.CallTo("builtin:append"), "append(files, file)") {
+			// the appends that build the RESULT (a helper listing a level's files appends too)
+			for _, r := range eng.SuccessReturns(f) {
+				if eng.DependsOn(eng.RetVal(r, 0), func(x ssa.Value) bool { return x == s.Instr.(ssa.Value) }) && s.Instr.Parent() == f {
+					selects = append(selects, s)
+					break
+				}
+			}
+		}
+		if len(selects) == 0 {
+			c.Undecided("no append feeding the result of FindFiles")
+		}
+		for i, s := range selects {
 			fs := facts.At(s.Instr)
 			lo := facts.Find(fs, "le", eng.DescSuffix(".minKey"), eng.DescIs("key"))
 			hi := facts.Find(fs, "le", eng.DescIs("key"), eng.DescSuffix(".maxKey"))
@@ -316,7 +329,7 @@ func runC15(c *eng.Ctx) {
 			dx, dy := p.Desc(ft.X), p.Desc(ft.Y)
 			return strings.HasSuffix(dx, ".minKey") && dy == "key" || dx == "key" && strings.HasSuffix(dy, ".maxKey")
 		})
-		app := p.Sites(f, eng.CallTo("builtin:append"))
+		app := selects
 		bad := false
 		for _, e := range strict {
 			first := e.B.Succs[e.Succ].Instrs[0]
